@@ -63,6 +63,9 @@ def shards(tier, seed):
             k += 1
     out.append({"name": "corpus", "threads": 1, "timeout": 600,
                 "params": {"kind": "corpus"}})
+    if tier == "thorough":
+        out.append({"name": "repo-tests", "threads": 4, "timeout": 1800,
+                    "params": {"kind": "repo-tests"}})
     return out
 
 
@@ -131,6 +134,8 @@ def force_case(rec, N, fs, target, sched, olap, extra_kw, wins=None):
 
 def run_shard(params, rec):
     kind = params["kind"]
+    if kind == "repo-tests":
+        return planwork.run_repo_tests(ID, rec)
     if kind == "plans":
         def extra(rec, cfg, rng, i):
             nf_pair(rec, cfg)
